@@ -459,6 +459,44 @@ pub fn run(ctx: &mut Ctx) -> Report {
 		}
 		rep.exhaustive.push("string types: TryFrom<&str> / TryFrom<String> / FromStr agree on acceptance, stored bytes and error; as_str / AsRef / Display / == (4 forms) return the text; from_utf16be / from_utf32be invert as_bytes".into());
 	}
+	// the command-line tool hands its --country-name to the PrintableString type: whatever text
+	// it is given, the country attribute of the CA it writes is a PrintableString holding that
+	// text, or nothing is written
+	#[cfg(not(feature = "nocrypto"))]
+	if let Ok(cli) = std::env::var("VERIF_CLI") {
+		if std::path::Path::new(&cli).exists() {
+			let printable = |c: char| c.is_ascii_alphanumeric() || " '()+,-./:=?".contains(c);
+			let mut texts: Vec<String> = (0x20u8..0x7f).map(|b| format!("A{}B", b as char)).collect();
+			texts.extend(["DE", "", "Côte d'Ivoire", "B*R", "D_E", "a@b", "U&S", "Ünited", "日本", "A\tB", "x;y", "50%", "A\"B", "<DE>", "A#B", "Z!"].map(String::from));
+			for (i, t) in texts.iter().enumerate() {
+				let dir = format!("/verif/.cache/c13_cli_{}_{}", std::process::id(), i);
+				let _ = std::fs::remove_dir_all(&dir);
+				let out = std::process::Command::new(&cli).args(["-o", &dir, "--ca-file-name=ca", &format!("--country-name={}", t)]).env("RUST_BACKTRACE", "0").output();
+				let Ok(out) = out else { continue };
+				rep.evaluations += 1;
+				let want_ok = t.chars().all(printable);
+				let pem_text = std::fs::read_to_string(format!("{}/ca.pem", dir)).ok();
+				let _ = std::fs::remove_dir_all(&dir);
+				rep.count(&format!("cli_country:{}", if out.status.success() { "written" } else { "refused" }));
+				let attr = pem_text.as_ref().and_then(|p| pem::parse(p).ok()).and_then(|p| {
+					// the value that follows the countryName attribute type in the certificate
+					let d = p.contents();
+					let pos = d.windows(5).position(|w| w == [0x06, 0x03, 0x55, 0x04, 0x06])?;
+					let (v, _) = crate::der::read_tlv(&d[pos + 5..])?;
+					Some((v.tag, v.content.to_vec()))
+				});
+				let ok = match (&attr, want_ok) {
+					(Some((tag, content)), true) => out.status.success() && *tag == 0x13 && content == t.as_bytes(),
+					(Some(_), false) => false,
+					(None, w) => !w && !out.status.success() || (w && t.is_empty() && out.status.success()),
+				};
+				if !ok {
+					rep.violate("C13:cli-country", "the command-line tool's country name is not a PrintableString holding the given text, or a text outside the alphabet was not refused", format!("--country-name={:?}\nexit success={}\ncountry attribute written (tag, content): {:?}", t, out.status.success(), attr.map(|(t, c)| (t, hex(&c)))));
+				}
+			}
+			rep.exhaustive.push("the command-line tool's --country-name over every ASCII character and 16 other texts: PrintableString holding the text, or refused".into());
+		}
+	}
 	rep.add("driver_requests", drv.requests);
 	rep
 }
